@@ -49,4 +49,23 @@ def checkInfeasible (n : Nat) (rows : List (Row α)) (y : List α) : Bool :=
 /-- the closed rows of a polytope `{x | A x ≤ b}` -/
 def polyRows (p : Aff α) : List (Row α) := p.rows.map (fun rb => ⟨rb.1, rb.2, false⟩)
 
+/-- primal/dual certificate check for `min c·x` over `{x | A x ≤ b}`: `x` is a point of the set with value `v`,
+    `y ≥ 0` are multipliers with `Σ yᵢ aᵢ = −c` and `Σ yᵢ bᵢ = −v` -/
+def checkOptimal (n : Nat) (p : Aff α) (c x : List α) (v : α) (y : List α) : Bool :=
+  Poly.memb p x && (dot c x == v)
+  && (c.length == n)
+  && (y.length == p.rows.length)
+  && y.all (fun e => decide (0 ≤ e))
+  && (polyRows p).all (fun r => r.a.length == n)
+  && (combVec n y (polyRows p) == vneg c)
+  && (combRhs y (polyRows p) == -v)
+
+/-- certificate check for unboundedness of `min c·x` over `{x | A x ≤ b}`: a point `x` of the set and a direction `d`
+    with `A d ≤ 0` and `c·d < 0` -/
+def checkUnbounded (n : Nat) (p : Aff α) (c x d : List α) : Bool :=
+  Poly.memb p x
+  && (x.length == n) && (d.length == n) && (c.length == n)
+  && p.rows.all (fun rb => rb.1.length == n && decide (dot rb.1 d ≤ 0))
+  && decide (dot c d < 0)
+
 end AV
